@@ -64,6 +64,24 @@ func decIntrinsics(in *interp, notOne bool) {
 		}
 		return avBool{false}
 	})
+	// the same predicates written as plain functions of one Decimal
+	for _, nm := range []string{"IsNaN", "isInf", "isSpecial", "IsZero", "isOne"} {
+		f := in.intrinsics["Decimal."+nm]
+		if _, taken := in.intrinsics[nm]; taken || p.Funcs["Decimal."+nm] != nil {
+			continue
+		}
+		lower := strings.ToLower(nm[:1]) + nm[1:]
+		for _, alias := range []string{nm, lower} {
+			if fd := p.Funcs[alias]; fd != nil && fd.Recv == nil && len(paramObjs(p, fd)) == 1 {
+				in.intrinsics[alias] = func(in *interp, st *state, call *ast.CallExpr, recv AV, args []AV) ([]AV, bool) {
+					if len(args) == 1 {
+						return f(in, st, call, args[0], nil)
+					}
+					return []AV{top}, true
+				}
+			}
+		}
+	}
 	in.intrinsics["Decimal.Signbit"] = func(in *interp, st *state, call *ast.CallExpr, recv AV, args []AV) ([]AV, bool) {
 		if d, ok := recv.(*avDec); ok && d.sign != nil {
 			return []AV{d.sign}, true
